@@ -8,6 +8,8 @@ mapping, written from the statement).  Here: what every structural plan node doe
 import Gv.Model.Eval
 import Gv.Spec.Structural
 import Gv.Proofs.EvalLemmas
+import Gv.Proofs.StructuralSound
+import Gv.Proofs.PlanCheckSound
 
 namespace Gv.Props.C02
 open Gv Gv.Str Gv.Eval
@@ -160,5 +162,138 @@ theorem C02_D9_witness :
     evalConv d9Program 5 default (.list (.basic .int) false false .ident) (.arr [.basic "1".toList]) .nil 0 = .panic .indexOutOfRange := by
   unfold evalConv
   simp [evalElemsOld, evalConv, bind, StateT.bind, pure, StateT.pure, panicE, Val.isAbsent]
+
+/-! ### The composite theorem: a checked structural program maps every value to its structural image
+
+`PlanCheck.checkProg` is a decidable test on the plans `Gv.Gen.generate` produced (the driver evaluates it for every
+converter of the C02 campaign and the evidence counts how many pass); `Spec.Img` is the structural mapping as a relation,
+written from the statement.  For every program that passes, every method, every well-typed source value of any size and
+depth and any fuel: whatever the plan semantics returns is the structural image of the source. -/
+
+open Gv.Typing Gv.Spec Gv.Sound in
+theorem C02_composite (p : Program) (hchk : PlanCheck.checkProg p = true)
+    (fuel m : Nat) (s t : Ty) (v : Val) (n : Nat) (v' : Val) (n' : Nat)
+    (hsig : sigOf p m = some (s, t)) (hwt : WT p.conv.env v s)
+    (hev : callMethod p fuel m v [] n = .ok (v', n')) :
+    Img p.conv.env s t v (erase v') :=
+  callMethod_structural p (checkProg_sound p hchk) fuel m s t v n v' n' hsig hwt hev
+
+/-! what the relation says at each shape (corollaries by inversion) -/
+
+open Gv.Spec in
+theorem C02_img_basic {env : TEnv} {s t : Ty} {r : S} {w : Val} {k : Kind} (ht : under env t = .basic k)
+    (h : Img env s t (.basic r) w) : w = .basic r := by
+  cases h with
+  | basic _ _ => rfl
+  | toPtr _ h2 _ => rw [ht] at h2; cases h2
+
+open Gv.Spec in
+theorem C02_img_nil_ptr {env : TEnv} {s t se te : Ty} {w : Val} (hs : under env s = .ptr se) (ht : under env t = .ptr te)
+    (h : Img env s t .nil w) : w = .nil := by
+  cases h with
+  | ptrNil _ _ => rfl
+  | toPtr h1 _ _ => exact absurd hs (h1 se)
+  | sliceNil _ _ => rfl
+  | mapNil _ _ => rfl
+
+open Gv.Spec in
+theorem C02_img_slice_length {env : TEnv} {s t se te : Ty} {l : Loc} {vs : List Val} {w : Val}
+    (hs : under env s = .slice se) (ht : under env t = .slice te) (h : Img env s t (.slice l vs) w) :
+    ∃ ws, w = .slice .none ws ∧ ws.length = vs.length := by
+  cases h with
+  | toPtr _ h2 _ => rw [ht] at h2; cases h2
+  | slice _ _ hl => exact ⟨_, rfl, (ImgList.length_eq hl).symm⟩
+
+open Gv.Spec in
+theorem C02_img_map_count {env : TEnv} {s t sk sv tk tv : Ty} {l : Loc} {kvs : List (Val × Val)} {w : Val}
+    (hs : under env s = .map sk sv) (ht : under env t = .map tk tv) (h : Img env s t (.map l kvs) w) :
+    ∃ ws, w = .map .none ws ∧ ws.length = kvs.length := by
+  cases h with
+  | toPtr _ h2 _ => rw [ht] at h2; cases h2
+  | map _ _ hl => exact ⟨_, rfl, (ImgEntries.length_eq hl).symm⟩
+
+open Gv.Spec in
+theorem C02_img_value_to_ptr_nonnil {env : TEnv} {s t te : Ty} {v w : Val} (hs : ∀ e, under env s ≠ .ptr e)
+    (ht : under env t = .ptr te) (h : Img env s t v w) : ∃ y, w = .ptr .none y ∧ Img env s te v y := by
+  cases h with
+  | basic _ h2 => rw [ht] at h2; cases h2
+  | ptrNil h1 _ => exact absurd h1 (hs _)
+  | ptrPtr h1 _ _ => exact absurd h1 (hs _)
+  | toPtr _ h2 hi => rw [ht] at h2; cases h2; exact ⟨_, rfl, hi⟩
+  | sliceNil _ h2 => rw [ht] at h2; cases h2
+  | slice _ h2 _ => rw [ht] at h2; cases h2
+  | array _ h2 _ => rw [ht] at h2; cases h2
+  | mapNil _ h2 => rw [ht] at h2; cases h2
+  | map _ h2 _ => rw [ht] at h2; cases h2
+  | struct _ h2 _ => rw [ht] at h2; cases h2
+
+/-! non-vacuity: a concrete program passes the check, and a concrete well-typed value is converted -/
+
+def exFields : Fields :=
+  .cons { name := "A".toList, exported := true, embedded := false, pkg := [] } (.basic .int)
+    (.cons { name := "P".toList, exported := true, embedded := false, pkg := [] } (.ptr (.basic .string))
+      (.cons { name := "L".toList, exported := true, embedded := false, pkg := [] } (.slice (.basic .int)) .nil))
+
+def exPlan : Conv :=
+  .structc (.cons (.mapped "A".toList ["A".toList] [false] false false .ident .none)
+    (.cons (.mapped "P".toList ["P".toList] [false] false true (.ptrPtr (.basic .string) .ident) .none)
+      (.cons (.mapped "L".toList ["L".toList] [false] false false (.list (.basic .int) true true .ident) .none) .nil))) false
+
+def exMethod : GenMethod :=
+  { name := "Convert".toList, source := .struct exFields, target := .struct exFields, args := [], contexts := [],
+    returnError := false, updateTarget := false, explicit := true, dirty := false, originPath := [], originName := [],
+    cfg := { common := {} }, body := some (.convert exPlan) }
+
+def exProgram : Program :=
+  { conv := { env := [], common := {}, outputPkg := [], customs := [], extend := [], orc := {} }, methods := [exMethod] }
+
+example : PlanCheck.checkProg exProgram = true := by decide
+
+def exValue : Val :=
+  .struct [("A".toList, .basic "5".toList), ("P".toList, .ptr (.src 1) (.basic "x".toList)),
+           ("L".toList, .slice (.src 2) [.basic "1".toList, .basic "2".toList])]
+
+def exResult : Val :=
+  .struct [("A".toList, .basic "5".toList), ("P".toList, .ptr (.fresh 0) (.basic "x".toList)),
+           ("L".toList, .slice (.fresh 1) [.basic "1".toList, .basic "2".toList])]
+
+/-- the conversion of `exValue` succeeds (so the hypothesis `… = .ok _` of the composite theorem is met) -/
+example : callMethod exProgram 10 0 exValue [] 0 = .ok (exResult, 2) := by
+  unfold callMethod
+  simp [exProgram, exMethod, exPlan, exValue, exResult, exFields, evalConv, evalFields, evalElems, walk, fieldOf, setField, normStruct,
+    zeroVal, zeroVal.zeroFields, under, Fields.toList, Val.isAbsent, bind, StateT.bind, pure, StateT.pure, freshLoc, List.lookup]
+
+open Gv.Typing in
+/-- `exValue` is a well-typed value of the source type (the other hypothesis of the composite theorem) -/
+example : WT [] exValue (.struct exFields) := by
+  refine .struct (tfs := exFields) rfl ?_
+  intro name x f ty hl hf
+  by_cases hA : name = "A".toList
+  · subst hA
+    simp [exValue, List.lookup] at hl
+    simp [exFields, Fields.toList, List.find?] at hf
+    obtain ⟨_, rfl⟩ := hf; subst hl
+    exact .basic (k := .int) rfl
+  · by_cases hP : name = "P".toList
+    · subst hP
+      simp [exValue, List.lookup] at hl
+      simp [exFields, Fields.toList, List.find?] at hf
+      obtain ⟨_, rfl⟩ := hf; subst hl
+      exact .ptr (e := .basic .string) rfl (.basic (k := .string) rfl)
+    · by_cases hL : name = "L".toList
+      · subst hL
+        simp [exValue, List.lookup] at hl
+        simp [exFields, Fields.toList, List.find?] at hf
+        obtain ⟨_, rfl⟩ := hf; subst hl
+        refine .slice (e := .basic .int) rfl ?_
+        intro v hv
+        simp at hv
+        rcases hv with rfl | rfl <;> exact .basic (k := .int) rfl
+      · exfalso
+        have h1 : (name == ['A']) = false := by simpa using hA
+        have h2 : (name == ['P']) = false := by simpa using hP
+        have h3 : (name == ['L']) = false := by simpa using hL
+        simp [exValue, List.lookup] at hl
+        simp [h1, h2, h3] at hl
 
 end Gv.Props.C02
